@@ -14,5 +14,9 @@ CHECKS = [
       text="rtsafe_ is verified with an uninterpreted C1 function f in a NaN-aware interpretation of its real jaxpr: the while loop is cut with an inductive invariant (bracket sign change, iterate inside the bracket, residual = f(iterate), converged => tolerance disjunct, unbracketed => NaN forever, end-point root kept), checked for an arbitrary iteration; postconditions follow from invariant and exit condition; the derivative through find_root is proved equal to the implicit-function-theorem value.",
       note=J_NOTE + " NaN/undefined propagation is modelled (x/0, comparisons with NaN); f total on reals. Termination/rate is not proved: an unconverged exit returns NaN, which the contract allows.",
       technique="contract-based deductive verification: loop invariant + VC generation over the real jaxpr (NaN-aware), z3"),
+ dict(property_id='C06',
+      text="The real source of EquationSolver.py is re-executed on Gram-abstract vectors (theorems hold in every inner-product space, hence every dimension). Truncated CG: loop cut with an inductive invariant (r = g + Hz, Pr = P r, r.d = -rPr, recurrences = inner products, |z| <= Delta, model(z) <= Cauchy value), first iteration peeled; postconditions: inside the trust region, boundary/negative-curvature steps have norm Delta, model never increased and at most the Cauchy-point value, interior => Newton residual below the CG tolerance. Dogleg and the three boundary projections: inside the region / on the path / on the boundary, for Euclidean and M-norm. treigen.solve on symbolic 2x2 problems for both families of orthogonal eigenvector matrices: interior, hard-case and boundary returns satisfy their KKT systems.",
+      note="Assumes: binary64 = reals; CPython runs the re-executed source (LoopCut + return tagging are the only transformations; print dropped); hess_vec_func symmetric linear, precond symmetric positive definite; eigh contract; solver soundness. NOT proved (listed in evidence): trust-region containment in the preconditioned-norm mode (needs global CG conjugacy), positivity of the shift after treigen's secular loop, treigen for n>2, EquationSolverSubspace.",
+      technique="contract-based deductive verification: loop invariants + path-wise VC generation from the re-executed real source on Gram-abstract vectors; z3 nlsat/cvc5 + Groebner"),
 ]
 NOT_APPLICABLE = []
